@@ -216,48 +216,61 @@ fn check_classes(pattern: &str, regex_type: RegexType) -> Result<(), Box<dyn Err
 }
 
 /// A back-reference to a group that is not complete where it stands - one that
-/// opens later, or the one it stands in - is an invalid regular expression (the
-/// engine only holds the number against the total count of groups).
+/// opens later, the one it stands in, or one of another alternative - is an
+/// invalid regular expression (the engine only holds the number against the
+/// total count of groups).
 fn check_back_references(pattern: &str, regex_type: RegexType) -> Result<(), Box<dyn Error>> {
     let extended = matches!(regex_type, RegexType::PosixExtended);
+    let newline_alt = matches!(regex_type, RegexType::Grep);
+    let bit = |group: u32| if group <= 9 { 1u32 << group } else { 0 };
     let mut opened = 0u32;
-    let mut open: Vec<u32> = Vec::new();
+    // The groups complete where the scan stands, and for the pattern and every
+    // group still open: its number, what was complete where it began (each of
+    // its alternatives starts from that) and what its earlier alternatives
+    // have completed (visible again once it is closed).
+    let mut complete = 0u32;
+    let mut open: Vec<(u32, u32, u32)> = vec![(0, 0, 0)];
     let mut rest = pattern;
     while let Some(ch) = rest.chars().next() {
         rest = &rest[ch.len_utf8()..];
-        match ch {
-            '\\' => {
-                let Some(quoted) = rest.chars().next() else {
-                    break;
-                };
-                rest = &rest[quoted.len_utf8()..];
-                match quoted {
-                    '(' if !extended => {
-                        opened += 1;
-                        open.push(opened);
-                    }
-                    ')' if !extended => {
-                        open.pop();
-                    }
-                    '1'..='9' => {
-                        let group = quoted as u32 - '0' as u32;
-                        if group > opened || open.contains(&group) {
-                            return Err(From::from(format!(
-                                "Invalid back reference \\{quoted} in regular expression {pattern:?}"
-                            )));
-                        }
-                    }
-                    _ => {}
+        let quoted = rest.chars().next().filter(|_| ch == '\\');
+        if let Some(quoted) = quoted {
+            rest = &rest[quoted.len_utf8()..];
+        }
+        // (in a POSIX extended pattern the operators are written without a
+        // backslash; a newline is an alternation in grep syntax only)
+        let operator = match (ch, quoted) {
+            ('\\', Some(c @ ('(' | ')' | '|'))) if !extended => Some(c),
+            (c @ ('(' | ')' | '|'), None) if extended => Some(c),
+            ('\n', None) if newline_alt => Some('|'),
+            _ => None,
+        };
+        match (operator, ch, quoted) {
+            (Some('('), ..) => {
+                opened += 1;
+                open.push((opened, complete, 0));
+            }
+            // (a ")" that closes nothing is an ordinary character)
+            (Some(')'), ..) if open.len() > 1 => {
+                if let Some((group, _, earlier)) = open.pop() {
+                    complete |= earlier | bit(group);
                 }
             }
-            '(' if extended => {
-                opened += 1;
-                open.push(opened);
+            (Some('|'), ..) => {
+                if let Some((_, began, earlier)) = open.last_mut() {
+                    *earlier |= complete;
+                    complete = *began;
+                }
             }
-            ')' if extended => {
-                open.pop();
+            (None, '\\', Some(digit @ '1'..='9')) => {
+                let group = digit as u32 - '0' as u32;
+                if complete & bit(group) == 0 {
+                    return Err(From::from(format!(
+                        "Invalid back reference \\{digit} in regular expression {pattern:?}"
+                    )));
+                }
             }
-            '[' => rest = after_bracket(rest, regex_type),
+            (None, '[', None) => rest = after_bracket(rest, regex_type),
             _ => {}
         }
     }
